@@ -77,6 +77,7 @@ class Ctx:
         self.walk_orders = builtins.set()
         self.analysed = []           # (lexer name, code digest) seen by lex seam
         self.analysed_paths = []     # rel paths seen by the _analyze_file recorder
+        self.module_state_dirty = builtins.set()
 
 
 CTX = Ctx()
@@ -609,6 +610,76 @@ def make_lex_recorder(real_lex):
 
 
 # ----------------------------------------------------------------------------
+# S3: process boundary - module-level mutable state
+# ----------------------------------------------------------------------------
+# A real CLI invocation is a new OS process: every module-level (and class-level)
+# list / dict / set of codelimit starts from its import-time value.  The
+# simulated process boundary restores exactly that, in place; library-mode ops
+# (one long-lived process) do not.  Not restored, deliberately: State._id and
+# other scalars, object identities, the heap.
+_MODULE_STATE = []      # (container object, shallow snapshot, where)
+_BINDINGS = []          # (owner, attribute, import-time scalar value, where)
+_SCALARS = (type(None), bool, int, float, str, bytes, tuple, frozenset)
+PRISTINE = {}
+
+
+def snapshot_module_state():
+    import inspect
+    _MODULE_STATE.clear()
+    _BINDINGS.clear()
+    seen = REAL["set"]()
+
+    def consider(obj, where, owner=None, attr=None):
+        if type(obj) in (list, dict, REAL["set"]) and id(obj) not in seen:
+            seen.add(id(obj))
+            _MODULE_STATE.append((obj, obj.copy(), where))
+        if owner is not None and type(obj) in (list, dict, REAL["set"]) + _SCALARS:
+            _BINDINGS.append((owner, attr, obj, where))
+    for name, mod in sorted(sys.modules.items()):
+        if mod is None or not (name == "codelimit" or name.startswith("codelimit.")):
+            continue
+        for attr, val in list(vars(mod).items()):
+            if attr.startswith("__") or attr == "set":
+                continue
+            consider(val, "%s.%s" % (name, attr), mod, attr)
+            if inspect.isclass(val) and getattr(val, "__module__", None) == name:
+                for cattr, cval in list(vars(val).items()):
+                    if not cattr.startswith("__") and not (cattr.startswith("_") and cattr.endswith("_")):
+                        consider(cval, "%s.%s.%s" % (name, attr, cattr), val, cattr)
+    return len(_MODULE_STATE)
+
+
+def restore_module_state():
+    n = 0
+    for obj, snap, where in _MODULE_STATE:
+        if obj != snap:
+            n += 1
+            CTX.counters["module_state_restored"] += 1
+            if len(CTX.module_state_dirty) < 16:
+                CTX.module_state_dirty.add(where)
+        if type(obj) is list:
+            obj[:] = snap
+        else:
+            obj.clear()
+            obj.update(snap)
+    for owner, attr, val, where in _BINDINGS:
+        try:
+            cur = vars(owner).get(attr, _BINDINGS)
+        except TypeError:
+            continue
+        if cur is not val and not (type(val) in _SCALARS and type(cur) is type(val) and cur == val):
+            try:
+                setattr(owner, attr, val)
+                n += 1
+                CTX.counters["module_binding_restored"] += 1
+                if len(CTX.module_state_dirty) < 16:
+                    CTX.module_state_dirty.add(where)
+            except (AttributeError, TypeError):
+                pass
+    return n
+
+
+# ----------------------------------------------------------------------------
 # install
 # ----------------------------------------------------------------------------
 _INSTALLED = {}
@@ -676,5 +747,7 @@ def install(simset=True):
     avail["simset"] = False
     if simset:
         avail["simset"] = inject_simset() > 0
+    avail["module_state_containers"] = snapshot_module_state()
+    PRISTINE["DEFAULT_EXCLUDES"] = list(getattr(Scanner, "DEFAULT_EXCLUDES", []))
     _INSTALLED.update(avail)
     return _INSTALLED
